@@ -281,3 +281,28 @@ Proof.
   split; [intros x y; exists (/ 4)%R; split; [exact H|reflexivity]|].
   split; [intros x y; exists (/ 4)%R; split; [exact H|reflexivity]|]. apply band_new_wf.
 Qed.
+
+(* ---- the tie by proof carried through to the new theorems: the same statements about the functions REGENERATED FROM
+   src/banded.rs on this run (gen/SrcBanded.v; equalities Proofs/SrcEqBanded.v): the translated Banded::det is the determinant
+   of the dense twin at the exact tier (singular twins included; the matrix determinant is the model function that C02
+   ties -- on purpose C04 does not depend on the source text of src/matrix/solve.rs), and the translated det / solve /
+   &B * &v do not see padding, over any arithmetic. ---- *)
+From OV Require Import gen.SrcBanded Proofs.BandedDet2Src.
+Theorem source_band_det_is_determinant_Qc : forall B : banded AQ, wfB B -> bm1 B <= bn B ->
+  @s_band_det AQ B = @Solve.determinant AQ (@tabulate AQ (bn B) (bn B) (@dense_entry AQ B)).
+Proof. exact source_band_det_spec_Qc_lemma. Qed.
+Check source_band_det_is_determinant_Qc : forall B : banded AQ, wfB B -> bm1 B <= bn B ->
+  @s_band_det AQ B = @Solve.determinant AQ (@tabulate AQ (bn B) (bn B) (@dense_entry AQ B)).
+Print Assumptions source_band_det_is_determinant_Qc.
+Theorem source_band_padding_independent : forall (A : Arith) (B B' : banded A),
+  wfB B -> same_in_matrix_slots B B' ->
+  s_band_det B' = s_band_det B /\
+  (forall b, s_band_solve B' b = s_band_solve B b) /\
+  (forall v, length v = bn B -> s_band_mul B' v = s_band_mul B v).
+Proof. intros A B B'. exact (source_band_padding_lemma B B'). Qed.
+Check source_band_padding_independent : forall (A : Arith) (B B' : banded A),
+  wfB B -> same_in_matrix_slots B B' ->
+  s_band_det B' = s_band_det B /\
+  (forall b, s_band_solve B' b = s_band_solve B b) /\
+  (forall v, length v = bn B -> s_band_mul B' v = s_band_mul B v).
+Print Assumptions source_band_padding_independent.
